@@ -13,7 +13,7 @@ RULE = ("the C05 inputs biased to keys that overlap after dotted-path expansion 
         "read by one whole-config Unpack; every "
         "case is executed 12 times (thorough 48) on maps built with permuted insertion orders (for <= 8 keys the Go runtime iterates "
         "a rotation of the insertion order) and the set of outcomes (same data / same error kind) must be a singleton; the model is "
-        "evaluated on the given and the reversed entry order. Non-trivial: at least two keys overlap after expansion. Distinct by "
+        "evaluated on the given and the reversed entry order. Plus: random overlaps of a small address space (names that are prefixes of each other, also through list indices and index 0 of a primitive) with values of every shape incl. null. Non-trivial: at least two keys overlap after expansion. Distinct by "
         "(overlap kind, outcome kind, number of keys).")
 TRUSTED_BASE = ["Lean 4 kernel", "Model/Normalize.lean with the map iteration order as the explicit entry order of GoData.map",
                 "the Go runtime's iteration order can only be sampled (steered by insertion order), not enumerated", "correspondence harness"]
